@@ -512,11 +512,11 @@ pub fn step(vh: &mut VH, r: &mut Rng, stats: &mut Stats) -> String {
         let price = match r.below(8) {
             0 => 0,
             1 => spot,
-            2 => spot * 10 / 11,
-            3 => spot * 10 / 11 + 1,
-            4 => spot * 10 / 9,
-            5 => spot * 10 / 9 + 1,
-            _ => r.below128(spot.saturating_mul(2) + 2),
+            2 => spot / 11 * 10 + spot % 11 * 10 / 11,
+            3 => spot / 11 * 10 + spot % 11 * 10 / 11 + 1,
+            4 => (spot / 9).saturating_mul(10).saturating_add(spot % 9 * 10 / 9),
+            5 => (spot / 9).saturating_mul(10).saturating_add(spot % 9 * 10 / 9).saturating_add(1),
+            _ => r.below128(spot.saturating_mul(2).saturating_add(2)),
         };
         let fail = r.chance(1, 20);
         {
@@ -555,9 +555,9 @@ pub fn step(vh: &mut VH, r: &mut Rng, stats: &mut Stats) -> String {
         let tw = match r.below(6) {
             0 => 0,
             1 => spot,
-            2 => spot + spot / 50,
+            2 => spot.saturating_add(spot / 50),
             3 => spot.saturating_sub(spot / 50),
-            _ => r.below128(spot.saturating_mul(2) + 2),
+            _ => r.below128(spot.saturating_mul(2).saturating_add(2)),
         };
         let fail = r.chance(1, 20);
         {
@@ -643,7 +643,7 @@ fn gen_limit(r: &mut Rng, qa: Option<u128>) -> u128 {
         (3, Some(q)) => q,
         (4, Some(q)) => q.saturating_sub(1),
         (5, Some(q)) => q.saturating_add(1),
-        (_, Some(q)) => r.below128(q.saturating_mul(2) + 2),
+        (_, Some(q)) => r.below128(q.saturating_mul(2).saturating_add(2)),
         (_, None) => r.below128(1000),
     }
 }
